@@ -44,6 +44,7 @@ type FuncSpec struct {
 	PreservesTypes []string // classes (type names) left untouched even under 'modifies *'
 	PreservesHeld bool // the callee does not write state guarded by locks the caller holds (no re-entry into the monitor)
 	Locals    []GhostLocal // specification-only recorders owned by this function (initialised at entry, invisible to callers' frames)
+	InitSets  []*GhostSet // ghost assignments executed when verification of the body starts (initial value of a ghost the body updates)
 	EntrySets []*GhostSet // ghost assignments that happen when the function is called (definitional)
 	Events    []Clause // ghost counters that calling this function increments (the call itself is the event)
 	GhostSets []*GhostSet
@@ -537,6 +538,38 @@ func (sp *Specs) parseFile(path string, extern bool) error {
 			sp.GhostPkg[name] = filepath.Base(filepath.Dir(path))
 			sp.GhostLocal[name] = true
 			curF.Locals = append(curF.Locals, GhostLocal{name, e})
+		case "init-set":
+			if curF == nil {
+				return fail(fmt.Errorf("init-set outside func block"))
+			}
+			gs := &GhostSet{When: "init"}
+			for _, as := range splitTop(rest, ";") {
+				as = strings.TrimSpace(as)
+				if as == "" {
+					continue
+				}
+				eq := indexTop(as, "=")
+				if eq < 0 {
+					return fail(fmt.Errorf("ghost assignment %q", as))
+				}
+				e, err := parseSpecExpr(strings.TrimSpace(as[eq+1:]))
+				if err != nil {
+					return fail(err)
+				}
+				if strings.HasPrefix(as, "$") {
+					gs.Names = append(gs.Names, strings.TrimSpace(as[1:eq]))
+					gs.Targets = append(gs.Targets, nil)
+				} else {
+					te, err := parseSpecExpr(strings.TrimSpace(as[:eq]))
+					if err != nil {
+						return fail(err)
+					}
+					gs.Names = append(gs.Names, strings.TrimSpace(as[:eq]))
+					gs.Targets = append(gs.Targets, te)
+				}
+				gs.Exprs = append(gs.Exprs, e)
+			}
+			curF.InitSets = append(curF.InitSets, gs)
 		case "entry-set":
 			if curF == nil {
 				return fail(fmt.Errorf("entry-set outside func block"))
